@@ -263,6 +263,7 @@ def run_all(mod, ctx, prop):
     ctx.each(ctor_forwarding_rule, ctx, ctx.repo, "R%sv" % prop[1:], mods)
     ctx.each(per_key_alias_rule, ctx, ctx.repo, "R%sw" % prop[1:], mods)
     ctx.each(loop_carried_rule, ctx, ctx.repo, "R%sx" % prop[1:], mods)
+    ctx.each(loop_dependence_rule, ctx, ctx.repo, "R%sy" % prop[1:], mods)
 
 
 def _names(e):
@@ -396,3 +397,61 @@ def loop_carried_rule(ctx, repo, rule_id, modules):
     ctx.note(rule_id, "%d functions with loops inspected" % n)
     if n:
         ctx.ok(rule_id, ", ".join(modules), "no new loop-carried local in %d functions" % n)
+
+
+def loop_dependent_stores(fi):
+    """{(loop target text, store target text): depends?} for writes into objects (attribute / subscript targets) inside for loops:
+    does the stored value depend on the loop variable (directly, or through locals assigned inside the loop body from it)?"""
+    out = {}
+    for loop in [l for l in own_nodes(fi.node) if isinstance(l, ast.For)]:
+        tainted = set(_names(loop.target))
+        changed = True
+        body = [s for st in loop.body for s in ast.walk(st)]
+        while changed:
+            changed = False
+            for s in body:
+                if isinstance(s, (ast.Assign, ast.AugAssign, ast.AnnAssign)) and getattr(s, "value", None) is not None:
+                    tg = s.targets if isinstance(s, ast.Assign) else [s.target]
+                    if _names(s.value) & tainted:
+                        for t in tg:
+                            for x in ast.walk(t):
+                                if isinstance(x, ast.Name) and isinstance(x.ctx, ast.Store) and x.id not in tainted:
+                                    tainted.add(x.id)
+                                    changed = True
+                elif isinstance(s, ast.For) and _names(s.iter) & tainted:
+                    for x in _names(s.target):
+                        if x not in tainted:
+                            tainted.add(x)
+                            changed = True
+        for s in body:
+            if isinstance(s, ast.Assign) and len(s.targets) == 1 and isinstance(s.targets[0], (ast.Attribute, ast.Subscript)):
+                t = s.targets[0]
+                if not (_names(t) & tainted):
+                    continue  # the object written is not a per-item object
+                key = (ast.unparse(loop.target), ast.unparse(t))
+                dep = bool(_names(s.value) & tainted)
+                out[key] = out.get(key, False) or dep
+    return out
+
+
+def loop_dependence_rule(ctx, repo, rule_id, modules):
+    ctx.rule(rule_id, "what is written per item comes from that item: a store into a per-item object inside a loop (`par.units = ...` for each target population, `ts[k] = ...` for each key) whose value depended on the loop variable on the reviewed tree (rules/tables/loop_stores.json) still depends on it; a value hoisted out of the loop gives every item the first item's value")
+    table = json.load(open(os.path.join(TABLES, "loop_stores.json")))
+    n = 0
+    for mod in modules:
+        m = repo.module(mod)
+        tab = table.get(mod, {})
+        for fi in m.all_functions():
+            want = tab.get(fi.qualname)
+            if not want:
+                continue
+            have = loop_dependent_stores(fi)
+            for lt, st in want:
+                if (lt, st) not in have:
+                    continue  # the store was renamed, moved or removed: not judged here
+                n += 1
+                if not have[(lt, st)]:
+                    ctx.fail(rule_id, fi, fi.node, "inside `for %s in ...` the value stored in `%s` no longer depends on `%s` (it did on the reviewed tree): every item now receives the same value, whichever item it belongs to" % (lt, st, lt), stmt_text="invariant-store:%s" % st)
+    ctx.note(rule_id, "%d per-item stores checked" % n)
+    if n:
+        ctx.ok(rule_id, ", ".join(modules), "%d per-item stores still depend on their loop variable" % n)
